@@ -689,6 +689,7 @@ def check_autodetect(chk, ix):
                  "_any_word_contains_wildcards": lambda i, s, a, k, n, _v=wild: [(s, "val", _v)]}
         it = Interp(ix, stubs=stubs, name="auto-detect")
         it.int_sat = 50
+        it.fold_regex = True
         st = State()
         st.frames = []
         text = "w1 w2" if many else "w1"
@@ -727,6 +728,7 @@ def check_autodetect(chk, ix):
     it = Interp(ix, stubs={"_any_word_starts_with": spy("prefix"), "_any_word_contains_keyword": spy("comma"),
                            "_any_word_is_keyword": spy("v2kw"), "_any_word_contains_wildcards": spy("wild")}, name="auto-detect words")
     it.int_sat = 50
+    it.fold_regex = True
     st = State()
     st.frames = []
     it.call_function(st, f, ["(-@a or @b) and @c"], {}, None)
@@ -805,6 +807,7 @@ def check_tables_and_dispatch(chk, ix):
     it = Interp(ix, stubs={"_any_word_starts_with": spy("prefixes"), "_any_word_contains_keyword": spy("v1kw"),
                            "_any_word_is_keyword": spy("v2kw"), "_any_word_contains_wildcards": spy("wild")}, name="auto-detect tables")
     it.int_sat = 50
+    it.fold_regex = True
     st = State()
     st.frames = []
     it.call_function(st, f, ["a b"], {}, None)
